@@ -12,8 +12,14 @@ pub struct C19;
 
 const DISTANCES: [u16; 7] = [1, 2, 10, 11, 255, 256, 257];
 
-fn prague_at_low_heights(network: &str) -> bool {
-    !matches!(network, "signet" | "mainnet" | "bitcoin")
+/// where the Prague rules are in force: everywhere except below the activation heights of the two live networks
+/// (signet 275000, mainnet 923369 - the schedule of the protocol version these checks were written against)
+fn prague_at(network: &str, block_being_built: u64) -> bool {
+    match network {
+        "signet" => block_being_built >= 275_000,
+        "mainnet" | "bitcoin" => block_being_built >= 923_369,
+        _ => true,
+    }
 }
 
 fn word_u64(v: u64) -> String {
@@ -139,7 +145,17 @@ fn check_probe(w: &mut World, e: &Expect, prague: bool, chain_id: u64) -> Option
         let got = read_slot(w, &e.contract, pg::PROBE_HASH_BASE + i as u64);
         let want = if (*d as u64) <= e.number && *d <= 256 {
             let h = e.number - *d as u64;
-            w.chain.iter().find(|b| b.height == h).map(|b| b.hash.to_lowercase()).unwrap_or_else(|| zero.clone())
+            match w.chain.iter().find(|b| b.height == h).map(|b| b.hash.to_lowercase()) {
+                Some(x) => x,
+                // below the bookkeeping (blocks mined in bulk to reach an activation height): what the instance serves
+                None if h <= w.uni.from_height => w
+                    .inst
+                    .call("eth_getBlockByNumber", json!([format!("0x{:x}", h), false]))
+                    .ok()
+                    .and_then(|b| b["hash"].as_str().map(|s| s.to_lowercase()))
+                    .unwrap_or_else(|| zero.clone()),
+                None => zero.clone(),
+            }
         } else {
             zero.clone()
         };
@@ -166,6 +182,24 @@ impl Prop for C19 {
     fn generate(&self, seed: u64, _tier: Tier) -> Value {
         case_of(&gen_case(seed))
     }
+    /// the first six runs of every batch cross an activation height: the chain is mined (empty blocks, in committed
+    /// chunks) to a few blocks below it right after genesis, so that the history's own blocks straddle it
+    fn case_for_run(&self, i: u64, seed: u64, tier: Tier) -> Value {
+        let mut v = self.generate(seed, tier);
+        if i < 6 {
+            let (net, act) = if i % 3 < 2 { ("signet", 275_000u64) } else { ("mainnet", 923_369u64) };
+            v["config"]["network"] = json!(net);
+            v["altitude"] = json!(act - 3 - seed % 8);
+            // no 250-block idle gaps and no reorgs right at the start: the blocks of the history stay around the height
+            if let Some(ops) = v["ops"].as_array_mut() {
+                ops.retain(|o| o.get("Mine").and_then(|m| m["n"].as_u64()).map_or(true, |n| n < 50));
+                if ops.first().map_or(false, |o| o.get("Mine").is_some()) {
+                    ops.remove(0);
+                }
+            }
+        }
+        v
+    }
     fn shrink(&self, case: &Value) -> Vec<Value> {
         // keep everything up to and including the probe deployments
         let keep = case["ops"].as_array().map(|a| a.iter().position(|o| o.get("Block").is_some()).unwrap_or(0) + 1).unwrap_or(0);
@@ -176,17 +210,16 @@ impl Prop for C19 {
             .collect()
     }
     fn rule(&self) -> String {
-        "case = seeded history on one of 6 networks (with / without the Prague rules at low heights) in which a Probe contract (writes NUMBER, TIMESTAMP, PREVRANDAO, CHAINID, BASEFEE, GASPRICE, COINBASE, ORIGIN, CALLER, staticcall(0xfa getTxId()), BLOCKHASH(n-d) for d in {1,2,10,11,255,256,257} to storage) is executed as inscription transaction (by address and by inscription id), as signed transaction, as parked-then-drained signed transaction, and through another contract, with arbitrary timestamps, explicit and server-generated hashes, commits, idle gaps (incl. > 256 blocks) and reorgs. After every such transaction the slots are read back with eth_getStorageAt and compared with what the harness supplied for *that* transaction (the drained transaction must see its own txid and the current block). Deposits / withdrawals: receipt.from must be the indexer address. distinct = sha256 of op list; non-trivial = at least one drained parked probe and one direct probe were checked".into()
+        "case = seeded history on one of 6 networks (with / without the Prague rules at low heights; the first six runs of a batch are mined to a few blocks below an activation height first, so that their blocks straddle it) in which a Probe contract (writes NUMBER, TIMESTAMP, PREVRANDAO, CHAINID, BASEFEE, GASPRICE, COINBASE, ORIGIN, CALLER, staticcall(0xfa getTxId()), BLOCKHASH(n-d) for d in {1,2,10,11,255,256,257} to storage) is executed as inscription transaction (by address and by inscription id), as signed transaction, as parked-then-drained signed transaction, and through another contract, with arbitrary timestamps, explicit and server-generated hashes, commits, idle gaps (incl. > 256 blocks) and reorgs. After every such transaction the slots are read back with eth_getStorageAt and compared with what the harness supplied for *that* transaction (the drained transaction must see its own txid and the current block). Deposits / withdrawals: receipt.from must be the indexer address. distinct = sha256 of op list; non-trivial = at least one drained parked probe and one direct probe were checked".into()
     }
     fn assumptions(&self) -> Vec<String> {
-        vec!["the activation heights themselves (signet 275000, mainnet 923369) are not crossed by these histories; networks with and without Prague at low heights are (C16 probes above the activation heights)".into()]
+        vec!["the first six runs of every batch straddle an activation height (signet 275000 four times, mainnet 923369 twice; the heights are those of the protocol version these checks were written against); block hashes of the bulk-mined blocks are taken from the instance".into()]
     }
     fn execute(&self, case: &Value) -> RunOut {
         let sc = scenario_of(case);
         setup(&sc);
         let timer = Timer::start();
         let mut w = World::new(Instance::fresh_seeded("c19", sc.hash_seed), sc.config.clone());
-        let prague = prague_at_low_heights(&sc.config.network);
         let chain_id = chain_id_for(&sc.config.network);
         let mut violation: Option<Violation> = None;
         let (mut direct, mut drained) = (false, false);
@@ -203,6 +236,26 @@ impl Prop for C19 {
                 if matches!(op, Op::Reorg { .. } | Op::ClearCaches | Op::Restart { .. }) {
                     let h = w.height.unwrap_or(0);
                     parked.retain(|_, v| v.2 <= h);
+                }
+                // straight after the first commit (genesis is durable): bulk-mine to the requested height
+                if let (Op::Commit, Some(alt), 0) = (op, case.get("altitude").and_then(|a| a.as_u64()), w.uni.from_height) {
+                    let mut h = w.height.unwrap_or(0);
+                    while h < alt {
+                        let n = (alt - h).min(10_000);
+                        let r = w.inst.call("brc20_mine", json!({"block_count": n, "timestamp": BASE_TS + 1}));
+                        let c = w.inst.call("brc20_commitToDatabase", json!([]));
+                        if !r.is_ok() || !c.is_ok() {
+                            violation = Some(Violation::new("panic-in-history", json!({"mine": r.to_value(), "commit": c.to_value(), "height": h})));
+                            break 'ops;
+                        }
+                        h += n;
+                    }
+                    w.height = Some(h);
+                    w.committed = Some(h);
+                    w.max_finalised = Some(h);
+                    w.uni.from_height = h;
+                    w.uni.max_height = h;
+                    w.stats.add("blocks_mined_to_altitude", h);
                 }
                 continue;
             };
@@ -302,6 +355,7 @@ impl Prop for C19 {
                     if !w.book.contracts.iter().any(|c| c.addr == e.contract && c.kind == "probe") {
                         continue;
                     }
+                    let prague = prague_at(&sc.config.network, e.number);
                     if let Some(mut v) = check_probe(&mut w, e, prague, chain_id) {
                         v.detail["op"] = json!(i);
                         v.detail["tx"] = json!(tx.id);
